@@ -310,8 +310,12 @@ def make_machine(cell, ctx, holder):
         @rule(name=st.sampled_from(names), value=st.one_of(gen.positive_factor(), st.floats(0.1, 3.0)))
         def assign(self, name, value):
             geo = MOM_SET.get(name, name)
-            if geo in ("x", "y", "z", "eta", "t") and (hash(value) % 2 == 0 or True):
+            if geo in ("x", "y", "z", "eta", "t", "tau"):
+                # tau < 0 is the stored spelling of a space-like vector
                 value = value if (int(value * 1000) % 2) else -value
+            if geo == "rho" and int(value * 1000) % 4 == 0:
+                # a negative radius is accepted and stored verbatim by constructors and setters alike
+                value = -value
             if geo == "theta":
                 value = 0.1 + (value % 2.9)
             if geo == "phi":
